@@ -122,6 +122,8 @@ def gen_case(rng: random.Random, tier: str) -> dict:
                 groups.append(idx[i:i + k])
                 i += k
             o["groups"] = groups
+        if not members:
+            o["empty_standard"] = rng.random() < 0.6  # 7-Zip's own form of an empty archive (no end header at all)
         spec["7z"] = o
     case = {"spec": spec, "faults": "enumerate", "fault_seed": rng.randrange(1 << 30), "path": "A" + archgen.ext_of(fmt)}
     plain_files = [m for m in members if m["kind"] == "file" and not m.get("fixture")]
